@@ -212,6 +212,58 @@ fn decode(kind: &str, w: &World, bytes: &[u8]) -> Decoded {
 	}
 }
 
+type ProbeOut = (String, bool, u64, (u64, u64, u64), Vec<(String, String)>);
+
+fn probe_one(kind: &String, bytes: &Vec<u8>) -> ProbeOut {
+	// monitors/managers were written by node A of a two- or three-node line world with the same seeds
+	let (w, _c) = crate::checks::c09::line_world(Ct::Static, 2, &[]);
+	let mut truncs = 0u64;
+	let mut problems: Vec<(String, String)> = Vec::new();
+	// the object itself must decode and re-encode identically (it came from node 0..2; keys of node 0 only fit node-0 objects)
+	let base = decode(kind, &w, bytes);
+	let decodable = matches!(base, Decoded::Ok(_));
+	if decodable {
+		for cut in 0..bytes.len() {
+			truncs += 1;
+			if let Decoded::Ok(_) = decode(kind, &w, &bytes[..cut]) {
+				problems.push(("truncation-accepted".into(), format!("{} of {} bytes truncated to {} decoded successfully", kind, bytes.len(), cut)));
+				break;
+			}
+		}
+	}
+	let mut tlv = (0u64, 0u64, 0u64);
+	if decodable {
+		match locate_trailing_stream(bytes) {
+			Some((off, body, types)) => {
+				// far above every type the library knows, so the record is genuinely unknown
+				let maxt = (*types.last().unwrap()).max(1_000_000);
+				let odd = if maxt % 2 == 0 { maxt + 1 } else { maxt + 2 };
+				let even = odd + 1;
+				match decode(kind, &w, &with_extra_record(bytes, off, body, odd)) {
+					Decoded::Ok(re) => {
+						// equal object: its canonical re-encoding equals the re-encoding of the untouched object
+						let base_re = match &base {
+							Decoded::Ok(b) => b.clone(),
+							_ => Vec::new(),
+						};
+						if re != base_re {
+							problems.push(("odd-tlv-changes-object".into(), format!("{}: unknown odd TLV {} in the trailing stream changed the decoded object", kind, odd)));
+						}
+						tlv.0 += 1;
+					},
+					Decoded::Err(e) => problems.push(("odd-tlv-rejected".into(), format!("{}: unknown odd TLV {} rejected: {}", kind, odd, e))),
+				}
+				match decode(kind, &w, &with_extra_record(bytes, off, body, even)) {
+					Decoded::Ok(_) => problems.push(("even-tlv-accepted".into(), format!("{}: unknown even TLV {} accepted", kind, even))),
+					Decoded::Err(_) => tlv.1 += 1,
+				}
+			},
+			None => tlv.2 += 1,
+		}
+	}
+	(kind.clone(), decodable, truncs, tlv, problems)
+}
+
 pub fn run(args: &Args) -> i32 {
 	let tier = args.tier;
 	crate::persist::KEEP_ALL.store(true, std::sync::atomic::Ordering::Relaxed);
@@ -248,55 +300,7 @@ pub fn run(args: &Args) -> i32 {
 			picked.push(all[i * all.len() / n.max(1)].clone());
 		}
 	}
-	let probe = mc_common::par::map(&picked, args.threads, |_, (kind, bytes)| {
-		// monitors/managers were written by node A of a two- or three-node line world with the same seeds
-		let (w, _c) = crate::checks::c09::line_world(Ct::Static, 2, &[]);
-		let mut truncs = 0u64;
-		let mut problems: Vec<(String, String)> = Vec::new();
-		// the object itself must decode and re-encode identically (it came from node 0..2; keys of node 0 only fit node-0 objects)
-		let base = decode(kind, &w, bytes);
-		let decodable = matches!(base, Decoded::Ok(_));
-		if decodable {
-			for cut in 0..bytes.len() {
-				truncs += 1;
-				if let Decoded::Ok(_) = decode(kind, &w, &bytes[..cut]) {
-					problems.push(("truncation-accepted".into(), format!("{} of {} bytes truncated to {} decoded successfully", kind, bytes.len(), cut)));
-					break;
-				}
-			}
-		}
-		let mut tlv = (0u64, 0u64, 0u64);
-		if decodable {
-			match locate_trailing_stream(bytes) {
-				Some((off, body, types)) => {
-					// far above every type the library knows, so the record is genuinely unknown
-					let maxt = (*types.last().unwrap()).max(1_000_000);
-					let odd = if maxt % 2 == 0 { maxt + 1 } else { maxt + 2 };
-					let even = odd + 1;
-					match decode(kind, &w, &with_extra_record(bytes, off, body, odd)) {
-						Decoded::Ok(re) => {
-							// equal object: its canonical re-encoding equals the re-encoding of the untouched object
-							let base_re = match &base {
-								Decoded::Ok(b) => b.clone(),
-								_ => Vec::new(),
-							};
-							if re != base_re {
-								problems.push(("odd-tlv-changes-object".into(), format!("{}: unknown odd TLV {} in the trailing stream changed the decoded object", kind, odd)));
-							}
-							tlv.0 += 1;
-						},
-						Decoded::Err(e) => problems.push(("odd-tlv-rejected".into(), format!("{}: unknown odd TLV {} rejected: {}", kind, odd, e))),
-					}
-					match decode(kind, &w, &with_extra_record(bytes, off, body, even)) {
-						Decoded::Ok(_) => problems.push(("even-tlv-accepted".into(), format!("{}: unknown even TLV {} accepted", kind, even))),
-						Decoded::Err(_) => tlv.1 += 1,
-					}
-				},
-				None => tlv.2 += 1,
-			}
-		}
-		(kind.clone(), decodable, truncs, tlv, problems)
-	});
+	let probe = mc_common::par::map(&picked, args.threads, |_, (kind, bytes)| probe_one(kind, bytes));
 	let mut truncs = 0u64;
 	let (mut odd_ok, mut even_rej, mut not_probed, mut undecodable) = (0u64, 0u64, 0u64, 0u64);
 	for (i, p) in probe.into_iter().enumerate() {
@@ -348,6 +352,34 @@ pub fn run(args: &Args) -> i32 {
 	mc_common::findings::conclude("C12", &r.violations, &mut ev)
 }
 
-pub fn replay(_name: &str, _actions: &[String]) -> i32 {
-	mc_common::cli::die("C12 replays: re-run the named sub-scenario through its own check (c01/c02/c09/c10)")
+pub fn replay(rep: &mc_common::Value, name: &str, actions: &[String]) -> i32 {
+	if let (Some(kind), Some(hexs)) = (rep["kind"].as_str(), rep["bytes"].as_str()) {
+		let bytes: Vec<u8> = (0..hexs.len() / 2).filter_map(|i| u8::from_str_radix(&hexs[2 * i..2 * i + 2], 16).ok()).collect();
+		return match mc_common::par::guarded(|| probe_one(&kind.to_string(), &bytes)) {
+			Ok((_, decodable, truncs, tlv, problems)) => {
+				for (o, d) in problems.iter() {
+					println!("{} {}", o, d);
+				}
+				println!("{} of {} bytes: decodable={} truncations={} tlv={:?} problems={}", kind, bytes.len(), decodable, truncs, tlv, problems.len());
+				if problems.is_empty() { 0 } else { 1 }
+			},
+			Err(p) => {
+				println!("panic {}", p);
+				1
+			},
+		};
+	}
+	crate::persist::KEEP_ALL.store(true, std::sync::atomic::Ordering::Relaxed);
+	let corpus: Corpus = Arc::new(Mutex::new(Vec::new()));
+	for tier in [Tier::Quick, Tier::Thorough] {
+		if let Some(s) = scenarios(tier, &corpus).into_iter().find(|s| s.name == name) {
+			let r = mc_common::explore::replay::<WorldSys>(&*s.factory, actions, false);
+			println!("{:?}", r);
+			return match r {
+				Ok(Ok(_)) => 0,
+				_ => 1,
+			};
+		}
+	}
+	mc_common::cli::die("unknown scenario in replay file")
 }
